@@ -71,6 +71,15 @@ func main() {
 		fmt.Println(string(b))
 	case "dump":
 		dump(*repo, *verbose)
+	case "funcs":
+		ctx, err := loadAll(*repo, "")
+		if err != nil {
+			fmt.Println("LOAD ERROR:", err)
+			os.Exit(2)
+		}
+		for _, fn := range ctx.P.Funcs {
+			fmt.Println(an.FuncName(fn))
+		}
 	case "names":
 		// closure naming: x/tools ordinal name -> role-based name used by the tables
 		ctx, err := loadAll(*repo, "")
